@@ -1,0 +1,15 @@
+//go:build verif
+
+package table
+
+import "github.com/lindb/lindb/pkg/bufioutil"
+
+// VerifC01SetNewWriter replaces the table builder's writer seam and returns a function restoring
+// the previous one. Verification hook (C01): no production code path calls it.
+func VerifC01SetNewWriter(f func(fileName string) (bufioutil.BufioWriter, error)) (restore func()) {
+	old := newBufioWriterFunc
+	if f != nil {
+		newBufioWriterFunc = f
+	}
+	return func() { newBufioWriterFunc = old }
+}
